@@ -245,10 +245,18 @@ def component_step(ck, ctx):
             if a[0] == "call" and a[1].endswith("Vec::len"):
                 forms.append("len")
             elif a[0] == "bin" and a[1] == "Add" and a[3] == ("const", 1) and strip(a[2])[0] == "bin" and strip(a[2])[1] == "Add" and any(c[3] == pbb for c in calls_in(strip(a[2])[3])):
+                # the base of `.. + pos + 1` is the same expression the scan started from (src)
                 forms.append("src+pos+1")
             else:
                 forms.append("?" + show(a, 2))
         ok_stop = sorted(forms) == ["len", "src+pos+1"] and show(lo, 3) == show(src_from, 3)
+        # the end of the span is counted from the read cursor: `stop = src + pos + 1` (base followed through the MIR temporaries)
+        stop_bases = set()
+        for bi in cfg.reach:
+            for s_ in b.blocks[bi]["stmts"]:
+                if s_["k"] == "assign" and not s_["place"]["p"] and b.local_name(s_["place"]["l"]) == "stop" and s_["rv"]["k"] == "use" and s_["rv"]["op"]["k"] in ("copy", "move") and s_["rv"]["op"]["place"]["p"]:
+                    stop_bases.add(_named_base(b, cfg, bi, {"k": "copy", "place": {"l": s_["rv"]["op"]["place"]["l"], "p": []}}))
+        ok_stop = ok_stop and stop_bases == {"src"}
     ck.ob("component-step", "copy-ends-after-first-separator", ok_stop, "copy_within copies data[src .. src+pos+1] (or to the end when no separator follows)", span=ct["loc"], fn=CANON)
     # separator class is the same everywhere in canonicalize_path: every byte switch with arm '/' also has arm '\\'
     bad = []
@@ -277,6 +285,28 @@ CANON_TABLE = {
 }
 
 
+def _named_base(b, cfg, bb, op, depth=0):
+    """name of the user variable an index operand is computed from (`x`, `x + k`, through MIR temporaries, also across the assert block
+    of a checked addition), or None"""
+    if depth > 8 or op is None or op.get("k") not in ("copy", "move"):
+        return None
+    pl = op["place"]
+    l = pl["l"]
+    if not pl["p"] and l in b.names:
+        return b.names[l]
+    blocks = [bb] + [p_ for p_, _ in cfg.pred[bb]] + [q for p_, _ in cfg.pred[bb] for q, _ in cfg.pred[p_]]
+    for x in blocks:
+        for s_ in reversed(b.blocks[x]["stmts"]):
+            if s_["k"] == "assign" and not s_["place"]["p"] and s_["place"]["l"] == l:
+                rv = s_["rv"]
+                if rv["k"] in ("use", "cast"):
+                    return _named_base(b, cfg, x, rv["op"], depth + 1)
+                if rv["k"] == "bin" and rv["op"] in ("Add", "AddWithOverflow", "Sub", "SubWithOverflow"):
+                    return _named_base(b, cfg, x, rv["a"], depth + 1)
+                return None
+    return None
+
+
 def dispatch_table(ck, ctx):
     """What one iteration of canonicalize_path's loop does, for every combination of the byte classes it looks at (the byte at src,
     src+1, src+2: absent / separator / '.' / anything else, several representatives each) and of the component stack being empty or
@@ -296,10 +326,15 @@ def dispatch_table(ck, ctx):
     hdr = hdrs[0]
     loop = cfg.natural_loop(hdr)
     gets = {}
+    bases = {}
     for bb, t in b.calls():
         if callee_of(t) == "core::slice::get" and bb in loop:
             e = strip(R.arg(bb, 1))
             gets[bb] = e[3][1] if e[0] == "bin" and e[1] == "Add" and e[3][0] == "const" else 0
+            bases["get@+%d#bb%d" % (gets[bb], bb)] = _named_base(b, cfg, bb, t["args"][1])
+        if callee_of(t) == "canon::StackStack::push" and bb in loop:
+            bases["push"] = _named_base(b, cfg, bb, t["args"][1])
+    ck.ob("dispatch-table", "cursors", all(v == "src" for k, v in bases.items() if k.startswith("get")) and bases.get("push") == "dst" and len(bases) >= 4, "the bytes examined are data[src], data[src+1], data[src+2] (read cursor) and the offset pushed on the component stack is dst (write cursor): %s" % {k.split("#")[0]: v for k, v in bases.items()}, span=b.loc, fn=CANON)
     names = {nm: l for l, nm in b.names.items()}
     src, dst = names.get("src"), names.get("dst")
     ck.ob("anchor", "canonicalize_path src/dst cursors", src is not None and dst is not None, "the read and write cursors exist", nontrivial=False)
